@@ -415,7 +415,20 @@ def run(ctx):
                     rows.append((vals, ns))
             if rows and ("client" in b.defp or "server" in b.defp):
                 disp.append((b, sw, rows))
-        ctx.floor("G2b", "key-length dispatches on the cipher kind", 3, len(disp))
+        # a dispatch that goes through a table on the kind (`kind.key_size()`, `kind.key_length() -> Option<KeyLength>`) has no switch on the
+        # kind in the start-up function itself: evaluate it per kind (constants and enum values are followed through the spliced table)
+        n_sim = 0
+        for b in prog.prod_bodies():
+            if not (b.defp.endswith("server::shadowsocks::startup::{closure#0}") or b.defp.endswith("client::transfer_tcp::{closure#0}") or b.defp.endswith("client::transfer_udp::{closure#0}")):
+                continue
+            if any(bb is b for (bb, _, _) in disp):
+                continue
+            n_sim += 1
+            for v in sorted(kind_algo):
+                ns, _ = kind_outcomes(prog, b, v, lambda fb_, blk_: False)
+                exp = kind_algo[v][1]
+                ctx.ob("G2b", b.defp, f"{kinds[v]}->N", loc(b.sp), ns == {exp}, f"kind {kinds[v]} reaches instantiations with key length {sorted(ns)} (evaluated through the kind table), algorithm key size {exp}", ordinal=False)
+        ctx.floor("G2b", "key-length dispatches on the cipher kind", 3, len(disp) + n_sim)
         for (b, sw, rows) in disp:
             for vals, ns in rows:
                 for v in vals:
@@ -581,18 +594,69 @@ def run(ctx):
                 continue
             ctx.ob("G6", b.defp, f"startup-panic:{bad.split(' ')[0]}", loc(t["sp"]), False, f"{bad} on a value that comes from the configuration: start-up panics instead of reporting an error")
     # Unknown cipher must be an error in every kind dispatch of start-up
+    n_g6 = 0
+    unknown = [v["discr"] for v in enums["cipher"]["variants"] if v["name"] == "Unknown"][0]
+    START_KEYS = ("template::transfer_", "startup_tcp", "startup_udp", "startup_all", "startup_with")
+
+    def _is_start(b_, blk_):
+        t_ = b_.term(blk_)
+        if t_ and t_["k"] == "goto" and "inlined_call" in t_:
+            t_ = t_["inlined_call"]
+        elif not t_ or t_["k"] != "call":
+            return False
+        c_ = Callee(t_["f"])
+        if any(k in c_.target for k in START_KEYS):
+            return True
+        tb_ = prog.body(c_.target)
+        # by role: a same-crate function that (within two calls) binds a listener
+        if tb_ is not None and tb_.defp.split("::", 1)[0] == b_.defp.split("::", 1)[0] and tb_.root != b_.root:
+            fb_ = prog.flat(tb_.root, max_depth=2)
+            fam_calls = [cc for (_, cc, _) in fb_.calls()] + [cc for f2 in prog.family(tb_.root) for (_, cc, _) in prog.flat(f2.defp, max_depth=2).calls()]
+            return any(cc.name in ("TcpListener::bind", "UdpSocket::bind", "Endpoint::server") for cc in fam_calls)
+        return False
+
     for b in prog.prod_bodies():
-        sw = _kind_switch(b)
-        if sw is None or not (("server::shadowsocks::startup" in b.defp) or b.defp.endswith("client::transfer_tcp::{closure#0}") or b.defp.endswith("client::transfer_udp::{closure#0}")):
+        if not (("server::shadowsocks::startup" in b.defp) or b.defp.endswith("client::transfer_tcp::{closure#0}") or b.defp.endswith("client::transfer_udp::{closure#0}")):
             continue
-        unknown = [v["discr"] for v in enums["cipher"]["variants"] if v["name"] == "Unknown"][0]
-        t = b.term(sw)
-        tgt = dict((v, x) for v, x in t["arms"]).get(unknown, t["otherwise"])
+        sw = _kind_switch(b)
+        t = tgt = None
+        if sw is not None:
+            t = b.term(sw)
+            tgt = dict((v, x) for v, x in t["arms"]).get(unknown, t["otherwise"])
+        else:
+            # the dispatch goes through a table on the cipher kind: evaluate start-up for Unknown with value tracking
+            if not (b.defp.endswith("server::shadowsocks::startup::{closure#0}") or b.defp.endswith("client::transfer_tcp::{closure#0}") or b.defp.endswith("client::transfer_udp::{closure#0}")):
+                continue
+            _, st_u = kind_outcomes(prog, b, unknown, lambda fb_, blk_: _is_start(fb_, blk_))
+            per_kind = [kind_outcomes(prog, b, v_, lambda fb_, blk_: _is_start(fb_, blk_))[1] for v_ in sorted(kind_algo)]
+            if not any(per_kind):
+                continue        # this function starts nothing for any kind: not a dispatch
+            # starts that every documented kind reaches are not decided by the cipher (the VMess / Trojan arms of the protocol match)
+            common_ = set.intersection(*per_kind) if per_kind else set()
+            st_ = st_u - common_
+            n_g6 += 1
+            ctx.ob("G6", b.defp, "unknown-cipher-starts-nothing", loc(b.sp), not st_,
+                   "Unknown cipher kind reaches no listener/relay start (evaluated through the kind table)" if not st_ else
+                   "an entry whose cipher is missing or not one of the documented names (CipherKind::Unknown) is dispatched like a real cipher and starts its listeners "
+                   "(the first connection then fails inside the cipher constructor) instead of being refused at start-up", ordinal=False)
+            continue
+        if t is None:
+            continue
+        n_g6 += 1
+        if tgt is None:
+            ctx.ob("G6", b.defp, "unknown-cipher-starts-nothing", loc(t["sp"]), True, "the kind table yields no key size for Unknown: nothing is started", ordinal=False)
+            continue
         reach = b.reach_from(tgt)
-        starts = [blk for blk in reach if b.term(blk) and b.term(blk)["k"] == "call" and
-                  any(k in Callee(b.term(blk)["f"]).target for k in ("template::transfer_", "startup_tcp", "startup_udp"))]
+        starts = [blk for blk in reach if _is_start(b, blk)]
         only_mine = [blk for blk in starts if not any(blk in b.reach_from(o) for v, o in t["arms"] if o != tgt)]
-        ctx.ob("G6", b.defp, "unknown-cipher-starts-nothing", loc(t["sp"]), not only_mine, "Unknown cipher kind reaches no listener/relay start", ordinal=False)
+        shared = [blk for blk in starts if blk not in only_mine]
+        # an arm that Unknown shares with documented ciphers (a `_ => 32` in the table) starts a listener for it just the same
+        bad = only_mine or (sw is None and starts)
+        ctx.ob("G6", b.defp, "unknown-cipher-starts-nothing", loc(t["sp"]), not bad,
+               "Unknown cipher kind reaches no listener/relay start" if not bad else
+               "an entry whose cipher is missing or not one of the documented names (CipherKind::Unknown) is dispatched like a real cipher and starts its listeners "
+               "(the first connection then fails inside the cipher constructor) instead of being refused at start-up", ordinal=False)
+    ctx.floor("G6", "start-up dispatches on the cipher kind checked for Unknown", 3, n_g6)
 
 
 def _chacha_rounds(ty):
@@ -623,11 +687,11 @@ def _chacha_rounds(ty):
     return val
 
 
-def _kind_switch(b):
+def _kind_switch(b, min_arms=4):
     """block of a switch on the discriminant of a CipherKind value"""
     for blk in b.rpo():
         t = b.term(blk)
-        if not t or t["k"] != "switch" or len(t["arms"]) < 4:
+        if not t or t["k"] != "switch" or len(t["arms"]) < min_arms:
             continue
         p = op_place(t["d"])
         if p is None:
@@ -665,5 +729,127 @@ def _place_ty(b, pl):
     prog_items = getattr(b, "_items", None)
     for e in fields:
         if e[2] in ("cipher", "kind"):
+            return "CipherKind"
+    return None
+
+
+# ---------------------------------------------------------------------------------------------------------------------
+# finite-configuration evaluation with value tracking: which instantiation does each cipher kind reach?
+def kind_outcomes(prog, b, v, is_start, max_steps=40000):
+    """Walk the flat view of `b` with `discriminant(<CipherKind place>) = v`, tracking constants and enum values that are built, returned and
+    matched on (a table `kind -> usize`, `kind -> Option<KeyLength>`, ...). Returns (const-generic sizes of the calls reached, start calls reached)."""
+    # only the tables on the cipher kind are spliced in; the listeners / relays that get started stay calls
+    fb = prog.flat(b.defp, max_depth=2, stop=lambda cb: not (cb.impl_self_def and cb.impl_self_def.endswith("CipherKind")), key="kind-tables")
+    sizes, starts = set(), set()
+    seen = set()
+    work = [(0, ())]
+    steps = 0
+
+    def ev_place(env, pl):
+        key = (pl[0], tuple((e[0], e[1]) if e[0] in ("field", "downcast") else (e[0],) for e in pl[1]))
+        if key in env:
+            return env[key]
+        cur = env.get((pl[0], ()))
+        for e in pl[1]:
+            if cur is None:
+                return None
+            if e[0] == "deref":
+                continue
+            if e[0] == "downcast":
+                continue
+            if e[0] == "field" and isinstance(cur, tuple) and cur[0] in ("variant", "tuple") and e[1] < len(cur[2]):
+                cur = cur[2][e[1]]
+            else:
+                return None
+        return cur
+
+    def ev_op(env, op):
+        k = op_int(op)
+        if k is not None:
+            return k
+        p = op_place(op)
+        return ev_place(env, p) if p is not None else None
+
+    while work and steps < max_steps:
+        steps += 1
+        blk, envt = work.pop()
+        if (blk, envt) in seen:
+            continue
+        seen.add((blk, envt))
+        env = dict(envt)
+        for s in fb.stmts(blk):
+            if s["k"] != "assign":
+                continue
+            dst = s["p"]
+            dkey = (dst[0], tuple((e[0], e[1]) if e[0] in ("field", "downcast") else (e[0],) for e in dst[1]))
+            rv = s["rv"]
+            val = None
+            if rv["k"] == "use":
+                val = ev_op(env, rv["op"])
+                if fb.local_ty(dst[0]) == "bool" and op_place(rv["op"]) is None:
+                    val = None      # drop flags and other constant booleans: path noise, never part of a kind table
+            elif rv["k"] == "cast" and rv.get("ck") == "IntToInt":
+                val = ev_op(env, rv["op"])
+            elif rv["k"] == "agg":
+                if rv.get("ak") == "adt":
+                    val = ("variant", rv.get("vidx", 0), tuple(ev_op(env, o) for o in rv["ops"]))
+                elif rv.get("ak") == "tuple":
+                    val = ("tuple", None, tuple(ev_op(env, o) for o in rv["ops"]))
+            elif rv["k"] == "discr":
+                pv = ev_place(env, rv["p"])
+                if isinstance(pv, tuple) and pv[0] == "variant":
+                    val = pv[1]
+                else:
+                    pty = _flat_place_ty(fb, rv["p"])
+                    if pty and pty.endswith("CipherKind"):
+                        val = v
+            # drop everything known below the written place
+            for k_ in [k_ for k_ in env if k_[0] == dkey[0] and k_[1][:len(dkey[1])] == dkey[1]]:
+                env.pop(k_)
+            if val is not None:
+                env[dkey] = val
+        t = fb.term(blk)
+        if not t:
+            continue
+        nxt = []
+        if t["k"] == "call":
+            c = Callee(t["f"])
+            sizes |= {n for n in const_generics_in(c) if n in (16, 24, 32, 64)}
+            if is_start(fb, blk):
+                starts.add(blk)
+            d = t["dest"]
+            for k_ in [k_ for k_ in env if k_[0] == d[0]]:
+                env.pop(k_)
+            if t.get("t") is not None:
+                nxt = [t["t"]]
+        elif t["k"] == "switch":
+            dv = ev_op(env, t["d"])
+            if isinstance(dv, bool):
+                dv = int(dv)
+            if isinstance(dv, int):
+                tgt = dict((a, x) for a, x in t["arms"]).get(dv, t["otherwise"])
+                nxt = [tgt]
+            else:
+                nxt = list(fb.succ(blk))
+        else:
+            ic = t.get("inlined_call") if t["k"] == "goto" else None
+            if ic is not None:      # a spliced call: its instantiation still counts, and it may be a start call
+                sizes |= {n for n in const_generics_in(Callee(ic["f"])) if n in (16, 24, 32, 64)}
+                if is_start(fb, blk):
+                    starts.add(blk)
+            nxt = [x for x in fb.succ(blk)]
+        et = tuple(sorted(env.items(), key=lambda kv: repr(kv[0])))
+        for n_ in nxt:
+            if not fb.blocks[n_].get("cleanup"):
+                work.append((n_, et))
+    return sizes, starts
+
+
+def _flat_place_ty(fb, pl):
+    ty = fb.local_ty(pl[0]).replace("&mut ", "").replace("&", "").strip()
+    if not [e for e in pl[1] if e[0] == "field"]:
+        return ty
+    for e in pl[1]:
+        if e[0] == "field" and len(e) > 2 and e[2] in ("cipher", "kind"):
             return "CipherKind"
     return None
